@@ -83,7 +83,8 @@ def build(combo, rng):
     blocks.append(dict(type=1, num=1, flags=0, crc_type=rng.choice([0, crc]), data=bytes((7 * i + 1) & 0xFF for i in range(plen)), crc=None))
     # (a source whose clock runs ahead of this node's: no time has passed since creation as far as this node can tell)
     ctime = 0 if combo['ctime'] == 'zero' else NOW_DTN_MS - rng.choice([0, 1, 999, 86400000, 86400000, 999, -1, -60000, -86400000])
-    dest = rng.choice(['dtn://next-a/svc', 'dtn://next-b/svc'])
+    # (demux text may end in a bare '?' or '#', or hold both: it travels as it is)
+    dest = rng.choice(['dtn://next-a/svc', 'dtn://next-b/svc', 'dtn://next-a/svc?', 'dtn://next-b/svc#', 'dtn://next-a/q?#frag', 'dtn://next-b/?'])
     flags = rng.choice([0, bpv7.FLAG_NO_FRAGMENT, bpv7.FLAG_REQ_FORWARDING, bpv7.FLAG_USER_APP_ACK | bpv7.FLAG_REQ_STATUS_TIME,
                         # bits RFC 9171 leaves unassigned must travel unchanged as well
                         0x80, 0x100 | bpv7.FLAG_NO_FRAGMENT, 0x200000, 0x08 | bpv7.FLAG_REQ_FORWARDING])
@@ -92,8 +93,8 @@ def build(combo, rng):
         flags |= bpv7.FLAG_ADMIN
         record = bpv7.encode_status_report([(True, None), (False, None), (False, None), (True, None)], rng.choice([1, 6, 17, 200]), 'dtn://subj/x', 5, 6)
         blocks[-1]['data'] = rng.choice([record, record[:7], record[3:], b'\xff\x00\x01', cw.enc([9, {2: 1, 1: 2}])])
-    pri = dict(version=7, flags=flags, crc_type=rng.choice([0, crc]), dest=dest, src=rng.choice(['dtn://src/app', 'ipn:7.3', 'dtn:none', 'ipn:0.0', 'ipn:4294967296.1']),
-               report_to=rng.choice(['dtn:none', 'dtn://rep/r', 'ipn:0.0']), create_time=ctime, seqno=rng.choice([0, 1, 2 ** 32]),
+    pri = dict(version=7, flags=flags, crc_type=rng.choice([0, crc]), dest=dest, src=rng.choice(['dtn://src/app', 'ipn:7.3', 'dtn:none', 'ipn:0.0', 'ipn:4294967296.1', 'dtn://src/app#', 'dtn://src/a?b#']),
+               report_to=rng.choice(['dtn:none', 'dtn://rep/r', 'ipn:0.0', 'dtn://rep/r?', 'dtn://rep/a?#b']), create_time=ctime, seqno=rng.choice([0, 1, 2 ** 32]),
                lifetime=combo['lifetime'], frag_offset=None, total_adu_len=None, crc=None)
     return dict(primary=pri, blocks=blocks, dwell_ms=rng.choice([0, 0, 1, 1500, 86400000]))
 
